@@ -1262,6 +1262,8 @@ def evaluate__from_datetime_functions(self: XPathFunction, context: ta.ContextTy
     if item is None:
         return []
     elif self.symbol.startswith('year'):
+        if item.year < 0 and self.parser.xsd_version != '1.0':
+            return item.year + 1  # XSD 1.1 year component: 0 is 1 BCE, -1 is 2 BCE
         return item.year
     elif self.symbol.startswith('month'):
         return item.month
@@ -1307,6 +1309,8 @@ def evaluate__from_date_functions(self: XPathFunction, context: ta.ContextType =
     if item is None:
         return []
     elif self.symbol.startswith('year'):
+        if item.year < 0 and self.parser.xsd_version != '1.0':
+            return item.year + 1  # XSD 1.1 year component: 0 is 1 BCE, -1 is 2 BCE
         return item.year
     elif self.symbol.startswith('month'):
         return item.month
